@@ -108,6 +108,14 @@ def setMetaKey (k : String) (x : JVal) : JVal → Option JVal
     | _ => none
   | _ => none
 
+/-- Python `v["metadata"].pop(k, None)`; `none` = the statement raises (no `metadata`, or not a map) -/
+def dropMetaKey (k : String) : JVal → Option JVal
+  | .obj kvs =>
+    match JVal.lookup "metadata" kvs with
+    | some (.obj m) => some (.obj (JVal.insert "metadata" (.obj (JVal.erase k m)) kvs))
+    | _ => none
+  | _ => none
+
 /-- the `raw` getter: `self._raw.update({"kind": self.kind, "apiVersion": self.version})` -/
 def krRaw (c : ApiClass) : JVal → JVal
   | .obj kvs => .obj (JVal.insert "apiVersion" (.str c.ver) (JVal.insert "kind" (.str c.kind) kvs))
